@@ -4,6 +4,7 @@
 package walk
 
 import (
+	"reflect"
 	"encoding/json"
 	"fmt"
 	"sort"
@@ -14,7 +15,9 @@ import (
 type W struct {
 	// Panics collects panics raised by accessors: "<where>: <value>"
 	Panics []string
-	Nodes  int
+	// Problems: by-name lookups (Definition(ident)) that disagree with the listed children
+	Problems []string
+	Nodes    int
 	seen   map[meta.Meta]bool
 	depth  int
 }
@@ -244,6 +247,7 @@ func (w *W) body(out M, x interface{}) {
 			}
 			out["children"] = kids
 		})
+		w.try("definition-by-name", func() { w.byName(hd) })
 	}
 	if ha, ok := x.(meta.HasActions); ok {
 		w.try("actions", func() {
@@ -398,4 +402,69 @@ func (w *W) node(d meta.Definition, parent meta.Meta) M {
 	}
 	w.body(out, d)
 	return out
+}
+
+// byName: what Definition(ident) finds below x must be what x lists: its children, and the members of the cases of its choices
+// (they are children by name of the data node around the choice). A name the index still knows although the node is gone
+// (removed by if-feature or a deviation) is reported, and so is a listed node the index does not find.
+func (w *W) byName(x meta.HasDataDefinitions) {
+	type finder interface {
+		Definition(ident string) meta.Definition
+	}
+	f, ok := x.(finder)
+	if !ok {
+		return
+	}
+	reach := map[string]meta.Definition{}
+	allowed := map[string]bool{}
+	var rec func(defs []meta.Definition)
+	rec = func(defs []meta.Definition) {
+		for _, d := range defs {
+			allowed[d.Ident()] = true
+			if _, dup := reach[d.Ident()]; !dup {
+				reach[d.Ident()] = d
+			}
+			if ch, isChoice := d.(*meta.Choice); isChoice {
+				for _, id := range ch.CaseIdents() {
+					allowed[id] = true
+					if k := ch.Cases()[id]; k != nil {
+						rec(k.DataDefinitions())
+					}
+				}
+			}
+		}
+	}
+	rec(x.DataDefinitions())
+	where := ""
+	if id, ok := x.(meta.Identifiable); ok {
+		where = id.Ident()
+	}
+	report := func(format string, a ...interface{}) {
+		if len(w.Problems) < 10 {
+			w.Problems = append(w.Problems, fmt.Sprintf(format, a...))
+		}
+	}
+	for name, d := range reach {
+		if got := f.Definition(name); got == nil {
+			report("index-miss: %s lists %s but Definition(%q) finds nothing", where, name, name)
+		} else if got != d {
+			if _, isCaseMember := d.Parent().(*meta.ChoiceCase); !isCaseMember {
+				report("index-other: Definition(%q) of %s is not the child %s lists", name, where, where)
+			}
+		}
+	}
+	// the names the index knows (read by reflection: there is no accessor that lists them)
+	v := reflect.ValueOf(x)
+	for v.Kind() == reflect.Ptr || v.Kind() == reflect.Interface {
+		v = v.Elem()
+	}
+	if v.Kind() == reflect.Struct {
+		if idx := v.FieldByName("dataDefsIndex"); idx.IsValid() && idx.Kind() == reflect.Map {
+			for _, k := range idx.MapKeys() {
+				if name := k.String(); !allowed[name] {
+					report("index-stale: Definition(%q) of %s still finds a node that %s does not have (any more)", name, where, where)
+				}
+			}
+		}
+	}
 }
